@@ -7,7 +7,7 @@ use crate::{
     tcp::{IpVersion, PayloadSize, Quirk, Signature as TcpSignature, TcpOption, Ttl, WindowSize},
 };
 use nom::branch::alt;
-use nom::bytes::complete::{take_until, take_while};
+use nom::bytes::complete::{take_until, take_while, take_while1};
 use nom::character::complete::{alpha1, char, digit1};
 use nom::combinator::{map, map_res, opt};
 use nom::multi::{separated_list0, separated_list1};
@@ -276,11 +276,17 @@ fn parse_ua_os(input: &str) -> IResult<&str, Vec<(String, Option<String>)>> {
 }
 
 fn parse_key_value(input: &str) -> IResult<&str, (&str, Option<&str>)> {
-    let (input, (name, _, value)) =
-        (alphanumeric1, space0, opt(preceded((space0, tag("="), space0), alphanumeric1)))
-            .parse(input)?;
+    // `name`, `name=value` or `name=[value]`; names may contain spaces (e.g. `Mac OS X`)
+    let (input, (name, value)) = (
+        take_while1(|c: char| c != ',' && c != '='),
+        opt(alt((
+            preceded(tag("=["), terminated(take_until("]"), char(']'))),
+            preceded(tag("="), take_while1(|c: char| c != ',')),
+        ))),
+    )
+        .parse(input)?;
 
-    Ok((input, (name, value)))
+    Ok((input, (name.trim(), value.map(str::trim))))
 }
 
 fn parse_label(input: &str) -> IResult<&str, Label> {
